@@ -19,12 +19,14 @@ import TorrentVerif.Model.Merkle
           whether (for numPieces = ⌈Σlen/pl⌉, pl>0) the node lengths of piece i sum to the length
           of slice i of the stream (the Spec side, on lengths).
     extractv1 <name-hex> <n> (<k> <elem-hex>×k <len>)×n   (n = 0 … multi-file; single: `extractv1s <name-hex> <len>`)
-        → records `full:filename:len` joined by `,` (`-` if none) or `IndexError`
+        <len> is a decimal number, or `p<number>` for a padding entry (`attr == "p"`), e.g. `p16380`
+        → records `full:filename:len` (`full:filename:len:p` for a padding entry) joined by `,`
+          (`-` if none) or `IndexError`
     extractv2 <name-hex> <tree>    tree := <n> (<key-hex> <node>)×n ; node := f <len> <root-hex|none> | d <tree>
         → records `full:filename:len:root` joined by `,`
     matchv1 <ds> <dest-hex> <pl> <pieces-hex> <FILES> <FILEMAP> <FS>
     matchv2 <ds> <dest-hex> <pl> <FILES> <FILEMAP> <FS>
-        FILES   := <n> (<full-hex> <filename-hex> <len> <root-hex|none>)×n
+        FILES   := <n> (<full-hex> <filename-hex> <len> <root-hex|none>)×n     (<len> = `p<number>` marks a v1 padding record)
         FILEMAP := <n> (<name-hex> <k> (<path-hex> <size>)×k)×n          (dict order, candidates in list order)
         FS      := <n> (<path-hex> <d|blob>)×n                            (`d` = directory; first entry wins)
         ds = `os.path.getsize` of a directory.  v1 uses the real SHA-1; v2 `rootOf` = root of
@@ -76,9 +78,19 @@ def done : P Unit := do
   | [] => pure ()
   | t :: _ => throw s!"extra-token:{t}"
 
+/-- a length token: `<n>`, or `p<n>` for a padding entry (`attr == "p"`) -/
+def padLen : P (Nat × Bool) := do
+  let t ← tok
+  match t.toList with
+  | 'p' :: r => do let n ← (natTok (String.ofList r) : Except String Nat); pure (n, true)
+  | _ => do let n ← (natTok t : Except String Nat); pure (n, false)
+
 def files : P (List FileRec) := many (do
-  let full ← hex; let fn ← hex; let len ← nat; let root ← optHex
-  pure ⟨full, fn, len, root⟩)
+  let full ← hex; let fn ← hex; let lp ← padLen; let root ← optHex
+  pure ⟨full, fn, lp.1, root, lp.2⟩)
+
+def recStr (f : FileRec) : String :=
+  s!"{hexOfBytes f.full}:{hexOfBytes f.filename}:{f.length}{if f.pad then ":p" else ""}"
 
 def filemap : P FileMap := many (do
   let name ← hex
@@ -188,13 +200,13 @@ def handleG4 : List String → Option (Except String String)
   | "extractv1s" :: t => some <| run (do
       let name ← hex; let len ← nat
       let r := Impl.extractV1Single name len
-      pure (joinOr "," (r.map (fun f => s!"{hexOfBytes f.full}:{hexOfBytes f.filename}:{f.length}")))) t
+      pure (joinOr "," (r.map recStr))) t
   | "extractv1" :: t => some <| run (do
       let name ← hex
-      let fl ← many (do let p ← many hex; let len ← nat; pure (p, len))
+      let fl ← many (do let p ← many hex; let lp ← padLen; pure (p, lp.1, lp.2))
       pure (match Impl.extractV1Multi name fl with
         | none => "IndexError"
-        | some r => joinOr "," (r.map (fun f => s!"{hexOfBytes f.full}:{hexOfBytes f.filename}:{f.length}")))) t
+        | some r => joinOr "," (r.map recStr))) t
   | "extractv2" :: t => some <| run (do
       let name ← hex
       let tree ← ftree 64
